@@ -56,6 +56,22 @@ CLAIMS = {
         "and termination are not judged.",
         ref="DESIGN.md §5 C11",
     ),
+    "C06": dict(
+        category="other",
+        technique="summary-based occupancy typestate over MIR (events A/M/B+/B-/B= on (items,size) and "
+        "(Guard.dst,Guard.initialized)), evaluated at every resolved user-code call site incl. unwind edges; "
+        "guard-liveness dominance; effect summaries for read-only observers",
+        text="Static decision that every site at which user-chosen code can run (T::clone, FnMut closure, the extend/"
+        "from_iter iterator, element eq/cmp/hash/fmt, element destructors) is reached, from every public entry and "
+        "through callee summaries, only in the `balanced` occupancy state, that public entries return balanced and "
+        "loop heads have a single state; plus the Guard protocol of write_uninit_slice_cloned (GUARD1), read-only-ness "
+        "of comparison/hash/fmt impls (RO1) and the closed table of forget/ManuallyDrop sites (LEAK1). Independent of "
+        "N, layout, argument length and of which invocation panics.",
+        note="Unwind edges whose only source is an implicit bounds / zero-divisor check are treated as infeasible "
+        "(INV + MOD1); external callees are classified by resolved where-clauses and a reviewed structural-impl table; "
+        "the Drain impl is governed by DRN1 (C09/C10), From<[T;M]> by FROMARR1+PS2 (C12/C05).",
+        ref="DESIGN.md §5 C06, §4 OCC",
+    ),
 }
 
 
